@@ -546,6 +546,7 @@ def run_case(case, dec):
     sim = Sim(dec, p_switch=p_switch, p_clock=0.0)
     sim.stall_index = case["stall_index"] if case["regime"] == "stalled" \
         else None
+    sim.perm_index = case.get("perm_index")
     codes = _install_sim(sim, case)
     orders = set()
     try:
@@ -732,3 +733,30 @@ def summarize(results):
         me = max(me, r.get("max_exact_err", 0.0))
     return {"distinct_completion_orders": len(orders), "kinds": kinds,
             "max_mode_diff_seen": md, "max_exact_err_seen": me}
+
+
+# ---------------------------------------------------------------------------
+# completion orders of the gates of a layer, enumerated: every permutation
+# (the same permutation index for every layer of the run) for chains whose
+# layers hold two or three gates
+
+def enumerated_cases(tier):
+    import math
+    out = []
+    lengths = (4, 6) if tier == "quick" else (4, 5, 6, 7)
+    for n in lengths:
+        gates = n // 2                    # gates in the larger layer
+        for k in range(math.factorial(gates)):
+            for mode in ("multithread", "multiprocess"):
+                for order in ((2,) if tier == "quick" else (1, 2)):
+                    out.append({
+                        "kind": "generic", "n": n, "d": 2, "dims": [2] * n,
+                        "steps": 1, "order": order, "dt": 0.1,
+                        "epsrel": 1e-9, "hseed": 1234 + n,
+                        "dissipation": True,
+                        "pts": ["none"] * n, "modes": [mode],
+                        "regime": "permuted", "stall_index": 0,
+                        "p_switch": 0.0, "initial": [1] * n,
+                        "tuples": [[0, 1], [1, n - 1]], "controls": [],
+                        "perm_index": k})
+    return out
